@@ -14,6 +14,8 @@ typedef NodeListIteratorType MutableNodeRefList_NodeListIteratorType;
 /* ghost: the list as an array of document-order indices, its base and length; the key; one arbitrary witness position */
 IndexType* g_idx; NodeListIteratorType g_base; size_t g_n; IndexType g_nodeIndex; size_t g_w;
 bool* g_after;          /* linear search: g_after[p] = isNodeAfterPredicate(node, element p) */
+bool* g_other;          /* linear search: g_other[p] = isNodeAfterPredicate.m_documentPredicate(node, element p): element p belongs to another document */
+size_t g_w2;            /* a second arbitrary witness position */
 #define OFF(p) ((size_t)__CPROVER_POINTER_OFFSET(p) / sizeof(XalanNode*))
 #define ALIGNED(p) (__CPROVER_POINTER_OFFSET(p) % sizeof(XalanNode*) == 0)
 #define IN_LIST(p) (__CPROVER_same_object((p), g_base) && ALIGNED(p) && OFF(p) <= g_n)
@@ -33,6 +35,12 @@ bool xv_pred_at(XalanNode* node, NodeListIteratorType it)
 __CPROVER_requires(__CPROVER_same_object(it, g_base) && ALIGNED(it) && OFF(it) < g_n)
 __CPROVER_assigns()
 __CPROVER_ensures(__CPROVER_return_value == g_after[OFF(it)])
+;
+/* isNodeAfterPredicate.m_documentPredicate(*node, **it): "belongs to another document" (unit c12_predicates) */
+bool xv_other_at(XalanNode* node, NodeListIteratorType it)
+__CPROVER_requires(__CPROVER_same_object(it, g_base) && ALIGNED(it) && OFF(it) < g_n)
+__CPROVER_assigns()
+__CPROVER_ensures(__CPROVER_return_value == g_other[OFF(it)])
 ;
 '''
 
@@ -63,20 +71,28 @@ LS_CONTRACT = r'''
 __CPROVER_requires(g_n <= MAXN)
 __CPROVER_requires(__CPROVER_is_fresh(begin, (g_n + 1) * sizeof(XalanNode*)))
 __CPROVER_requires(__CPROVER_is_fresh(g_after, (g_n + 1) * sizeof(bool)))
+__CPROVER_requires(__CPROVER_is_fresh(g_other, (g_n + 1) * sizeof(bool)))
 __CPROVER_requires(end == begin + g_n && g_base == begin)
 __CPROVER_requires(__CPROVER_is_fresh(insertionPoint, sizeof(*insertionPoint)))
 __CPROVER_assigns(*insertionPoint)
 __CPROVER_ensures(/* linear search: the insertion point lies inside [begin, end] */ IN_LIST(*insertionPoint))
-__CPROVER_ensures(/* linear search: every element before the insertion point is a different node that the new node comes after (ghost witness) */
-    (g_w < OFF(*insertionPoint)) ==> (begin[g_w] != node && g_after[g_w] == true))
-__CPROVER_ensures(/* linear search: it stops at the node itself (duplicate: no insert) or at the first element the node does not come after */
-    (OFF(*insertionPoint) < g_n) ==> ((__CPROVER_return_value == false && begin[OFF(*insertionPoint)] == node) || (__CPROVER_return_value == true && begin[OFF(*insertionPoint)] != node && g_after[OFF(*insertionPoint)] == false)))
+__CPROVER_ensures(/* linear search: every element before the insertion point is a different node that belongs to another document or that the new node comes after (ghost witness) */
+    (g_w < OFF(*insertionPoint)) ==> (begin[g_w] != node && (g_other[g_w] == true || g_after[g_w] == true)))
+__CPROVER_ensures(/* linear search, several documents: before the insertion point no node of another document follows a node of the own document of the new node (two ghost witnesses) */
+    (g_w < g_w2 && g_w2 < OFF(*insertionPoint)) ==> !(g_other[g_w] == false && g_other[g_w2] == true))
+__CPROVER_ensures(/* linear search: it stops at the node itself (duplicate: no insert), at the first element of its own document the node does not come after, or where the group of its own document ends */
+    (OFF(*insertionPoint) < g_n) ==> ((__CPROVER_return_value == false && begin[OFF(*insertionPoint)] == node)
+        || (__CPROVER_return_value == true && begin[OFF(*insertionPoint)] != node
+            && (g_other[OFF(*insertionPoint)] == true ? (OFF(*insertionPoint) > 0 && g_other[OFF(*insertionPoint) - 1] == false) : g_after[OFF(*insertionPoint)] == false))))
 __CPROVER_ensures(/* linear search: reaching the end means insert */ (OFF(*insertionPoint) == g_n) ==> __CPROVER_return_value == true)
 '''
 LS_LOOP = r'''
-__CPROVER_assigns(current, fInsert)
-__CPROVER_loop_invariant(IN_LIST(current) && fInsert == true)
-__CPROVER_loop_invariant((g_w < OFF(current)) ==> (begin[g_w] != node && g_after[g_w] == true))
+__CPROVER_assigns(current, fInsert, fInOwnDocument)
+__CPROVER_loop_invariant(IN_LIST(current) && fInsert == true && (fInOwnDocument == true || fInOwnDocument == false))
+__CPROVER_loop_invariant((g_w < OFF(current)) ==> (begin[g_w] != node && (g_other[g_w] == true || g_after[g_w] == true)))
+__CPROVER_loop_invariant(/* the flag says that the element just passed belongs to the own document of the node */ fInOwnDocument == true ==> (OFF(current) > 0 && g_other[OFF(current) - 1] == false))
+__CPROVER_loop_invariant((g_w < OFF(current) && g_other[g_w] == false) ==> fInOwnDocument == true)
+__CPROVER_loop_invariant((g_w < g_w2 && g_w2 < OFF(current)) ==> !(g_other[g_w] == false && g_other[g_w2] == true))
 __CPROVER_decreases(g_n - OFF(current))
 '''
 
@@ -84,7 +100,7 @@ TEMPLATE = PRELUDE + r'''
 @@FN findInsertionPointBinarySearch@@
 @@FN findInsertionPointLinearSearch@@
 
-static void xv_havoc(void) { IndexType* a; NodeListIteratorType b; size_t n, w; IndexType k; bool* f; g_idx = a; g_base = b; g_n = n; g_w = w; g_nodeIndex = k; g_after = f; }
+static void xv_havoc(void) { IndexType* a; NodeListIteratorType b; size_t n, w, w2; IndexType k; bool *f, *o; g_idx = a; g_base = b; g_n = n; g_w = w; g_w2 = w2; g_nodeIndex = k; g_after = f; g_other = o; }
 void h_binsearch(void) { xv_havoc(); XalanNode* n; NodeListIteratorType b, e, *ip; findInsertionPointBinarySearch(n, b, e, ip); }
 void h_linsearch(void) { xv_havoc(); XalanNode* n; NodeListIteratorType b, e, *ip; findInsertionPointLinearSearch(n, b, e, ip); }
 
@@ -103,6 +119,58 @@ void h_insert_keeps_order(void)
     a_j = (j == ip) ? key : old_j;
     __CPROVER_assert(a_i < a_j, "lemma: inserting at the insertion point keeps the list strictly ordered (hence duplicate-free)");
     XV_REACH("h_insert_keeps_order");
+}
+
+/* lemma (loop-free), lists with nodes of SEVERAL documents: d = document of an element, D = document of the new node, K / idx = position in
+   its own document.  Assumed: the old list keeps every document together and is ordered inside each document (instantiated at every triple
+   of the positions x < y, ip - 1, ip), the linear-search postcondition at x, y and ip, and what the predicates answer (unit c12_predicates:
+   other document -> "other"; same document -> the larger index is after).  Shown: the list with the node inserted at the insertion point
+   still keeps every document together and ordered. */
+void h_insert_keeps_documents_together(void)
+{
+    size_t n, ip, x, y; unsigned D, dx, dy, dp, dq; IndexType K, ix, iy, ip_idx, iq; bool stop_is_dup;
+    __CPROVER_assume(n <= MAXN && ip <= n && x < y && y < n);
+    /* p = ip - 1 (if ip > 0), q = ip (if ip < n): document and index of those elements; x / y may coincide with them */
+    if (ip > 0 && x == ip - 1) { __CPROVER_assume(dx == dp && ix == ip_idx); }
+    if (ip > 0 && y == ip - 1) { __CPROVER_assume(dy == dp && iy == ip_idx); }
+    if (ip < n && x == ip) { __CPROVER_assume(dx == dq && ix == iq); }
+    if (ip < n && y == ip) { __CPROVER_assume(dy == dq && iy == iq); }
+#define GROUPED(a, da, b, db, c, dc) __CPROVER_assume(!((a) < (b) && (b) < (c) && (da) == (dc)) || (db) == (da))
+#define ORDERED(a, da, ia, b, db, ib) __CPROVER_assume(!((a) < (b) && (da) == (db)) || (ia) < (ib))
+    /* old list: documents together, ordered inside a document */
+    if (ip > 0) { GROUPED(x, dx, ip - 1, dp, y, dy); GROUPED(ip - 1, dp, x, dx, y, dy); GROUPED(x, dx, y, dy, ip - 1, dp); ORDERED(x, dx, ix, ip - 1, dp, ip_idx); ORDERED(ip - 1, dp, ip_idx, x, dx, ix); ORDERED(y, dy, iy, ip - 1, dp, ip_idx); ORDERED(ip - 1, dp, ip_idx, y, dy, iy); }
+    if (ip < n) { GROUPED(x, dx, ip, dq, y, dy); GROUPED(ip, dq, x, dx, y, dy); GROUPED(x, dx, y, dy, ip, dq); ORDERED(x, dx, ix, ip, dq, iq); ORDERED(ip, dq, iq, x, dx, ix); ORDERED(y, dy, iy, ip, dq, iq); ORDERED(ip, dq, iq, y, dy, iy); }
+    if (ip > 0 && ip < n) { GROUPED(ip - 1, dp, ip, dq, x, dx); GROUPED(ip - 1, dp, ip, dq, y, dy); GROUPED(x, dx, ip - 1, dp, ip, dq); ORDERED(ip - 1, dp, ip_idx, ip, dq, iq); }
+    ORDERED(x, dx, ix, y, dy, iy);
+    /* search postcondition: before the insertion point: other document, or the node comes after (same document, larger index) */
+#define BEFORE_OK(d, i) ((d) != D || K > (i))
+    if (x < ip) __CPROVER_assume(BEFORE_OK(dx, ix));
+    if (y < ip) __CPROVER_assume(BEFORE_OK(dy, iy));
+    if (ip > 0) __CPROVER_assume(BEFORE_OK(dp, ip_idx));
+    /* ... no other-document node after an own-document node before the insertion point */
+#ifndef XV_OLD_POSTCONDITION      /* self-check job: with the postcondition the search had before fix F33 the lemma must FAIL */
+    if (y < ip) __CPROVER_assume(!(dx == D && dy != D));
+    if (ip > 0 && x < ip - 1) __CPROVER_assume(!(dx == D && dp != D));
+    if (ip > 0 && y < ip - 1) __CPROVER_assume(!(dy == D && dp != D));
+#endif
+    /* ... the stop element (the node is inserted, so it is not the duplicate case) */
+#ifndef XV_OLD_POSTCONDITION
+    if (ip < n) __CPROVER_assume(dq != D ? (ip > 0 && dp == D) : !(K > iq) && K != iq);
+#else
+    if (ip < n) __CPROVER_assume(dq == D && !(K > iq) && K != iq);
+#endif
+    /* new list: position of an old element e is e (e < ip) or e + 1; the node sits at ip */
+    /* the node between x and y */
+    if (x < ip && ip <= y) __CPROVER_assert(dx != dy || dx == D, "ALSO when the list holds nodes of several documents: the node is not put between two nodes of one other document");
+    /* the node before x and y */
+    if (ip <= x) __CPROVER_assert(dy != D || dx == D, "ALSO when the list holds nodes of several documents: no node of another document between the new node and a later node of its document");
+    /* the node after x and y */
+    if (y < ip) __CPROVER_assert(dx != D || dy == D, "ALSO when the list holds nodes of several documents: no node of another document between an earlier node of its document and the new node");
+    /* order inside the node's own document */
+    if (x < ip && dx == D) __CPROVER_assert(ix < K, "several documents: the nodes of the document of the new node before it have smaller indexes");
+    if (ip <= x && dx == D) __CPROVER_assert(ix > K, "several documents: the nodes of the document of the new node after it have larger indexes");
+    if (ip <= y && dy == D) __CPROVER_assert(iy > K, "several documents: the nodes of the document of the new node after it have larger indexes (second witness)");
+    XV_REACH("h_insert_keeps_documents_together");
 }
 '''
 
@@ -138,6 +206,7 @@ UNIT = Unit(
                (r'NodeListIteratorType\s+current\(begin\);', 'NodeListIteratorType current = (begin);', 1),
                (r'const XalanNode\*\s+child = \*current;', 'const XalanNode* child = *current;', 1),   # must fire: child is the element at `current`
                (r'assert\(child != 0\);', '', 1),
+               (r'isNodeAfterPredicate\.m_documentPredicate\(\*node, \*child\)', 'xv_other_at(node, current)', 1),     # the document part of the predicate, by position
                (r'isNodeAfterPredicate\(\*node, \*child\)', 'xv_pred_at(node, current)', 1),     # R6/R8: the predicate instantiation, by position
                (r'\binsertionPoint\b', '(*insertionPoint)', None),
            ],
@@ -147,18 +216,21 @@ UNIT = Unit(
     jobs=[
         Job('binsearch', 'h_binsearch', enforce=['findInsertionPointBinarySearch'], replace=['xv_index_at', 'xv_node_index'],
             loop_contracts=True, reach=['entry:findInsertionPointBinarySearch', 'after_loop0:findInsertionPointBinarySearch'], timeout=600),
-        Job('linsearch', 'h_linsearch', enforce=['findInsertionPointLinearSearch'], replace=['xv_pred_at'],
+        Job('linsearch', 'h_linsearch', enforce=['findInsertionPointLinearSearch'], replace=['xv_pred_at', 'xv_other_at'],
             loop_contracts=True, reach=['entry:findInsertionPointLinearSearch', 'after_loop0:findInsertionPointLinearSearch'], timeout=600),
         Job('insert_lemma', 'h_insert_keeps_order', dfcc=False, reach=['h_insert_keeps_order'], timeout=120),
+        Job('documents_lemma', 'h_insert_keeps_documents_together', dfcc=False, reach=['h_insert_keeps_documents_together'], timeout=300, min_obligations=6),
     ],
     mutants=[
         Mutant('bs_append_le', ML, r'if \(\(\*last\)->getIndex\(\) < theIndex\)', 'if ((*last)->getIndex() <= theIndex)', expect='binary search'),
         Mutant('bs_first_not_advanced', ML, r'first = current \+ 1;', 'first = current;', expect=None),
         Mutant('bs_insert_after_wrong', ML, r'insertionPoint = current \+ 1;', 'insertionPoint = current;', expect='binary search'),
         Mutant('ls_dup_inserts', ML, r'(if\(child == node\)\s*\{[^}]*?)fInsert = false;', r'\1fInsert = true;', expect='linear search'),
+        Mutant('ls_group_end_ignored', ML, r'if \(fInOwnDocument == true\)\s*\{', 'if (false)\n            {', expect=None),
+        Mutant('ls_flag_never_set', ML, r'\n\s*fInOwnDocument = true;\n', '\n', expect=None),
         Mutant('ls_stops_late', ML, r'else if \(isNodeAfterPredicate\(\*node, \*child\) == false\)', 'else if (isNodeAfterPredicate(*node, *child) == true)', expect='linear search'),
     ],
     mechanisms=['ordered, de-duplicating insert'],
     assumptions=['XalanNode::getIndex() is pure and stable (accessor stubs); the list is strictly ordered by index on entry (representation invariant, consumed through the witness form of xv_index_at)',
-                 'template findInsertionPointLinearSearch is proved for an arbitrary predicate whose answers are the ghost array g_after'],
+                 'template findInsertionPointLinearSearch is proved for an arbitrary predicate whose answers are the ghost arrays g_after (whole predicate) and g_other (its document part); documents_lemma assumes what c12_predicates proves: other document -> the document part answers true, same document -> the larger index is after'],
 )
